@@ -70,8 +70,8 @@ func (c *FnCtx) eval(env *SpecEnv, e *Expr) (Val, error) {
 		o := env.old.child()
 		// bound (quantified) variables stay visible inside old()
 		for k, v := range env.vars {
-			if _, ok := o.vars[k]; !ok && strings.HasPrefix(v.S, "|q.") {
-				o.vars[k] = v
+			if _, ok := o.vars[k]; !ok {
+				o.vars[k] = v // values (results, bound variables) are state-independent
 			}
 		}
 		return c.eval(o, e.Args[0])
@@ -159,7 +159,18 @@ func (c *FnCtx) eval(env *SpecEnv, e *Expr) (Val, error) {
 				sub.old = so
 			}
 			if kindOf(t) == KRef {
-				guards = append(guards, "(>= "+name+" 0)")
+				// reference-typed bound variables range over the objects allocated in the state the
+				// formula talks about (never over unallocated references)
+				al := env.st.alloc
+				if env.isOld && env.alloc != "" {
+					al = env.alloc
+				}
+				guards = append(guards, sel(al, name))
+				if pt, ok := t.Underlying().(*types.Pointer); ok {
+					if tid := c.refTypeID(pt.Elem()); tid != "" {
+						guards = append(guards, eq("(rtype "+name+")", tid))
+					}
+				}
 			}
 		}
 		body, err := c.evalBool(sub, e.Args[0])
@@ -572,6 +583,30 @@ func (c *FnCtx) evalCall(env *SpecEnv, e *Expr) (Val, error) {
 			return mathInt(args[0].Base()), nil
 		}
 		return Val{}, fmt.Errorf("base of non-slice")
+	case "box":
+		if err := evalArgs(); err != nil {
+			return Val{}, err
+		}
+		if len(args) != 1 || !args[0].IsScalar() {
+			return Val{}, fmt.Errorf("box needs one scalar argument")
+		}
+		bx, _ := c.declareBox(args[0].T)
+		return Val{T: types.Universe.Lookup("any").Type(), K: KIface, S: "(" + bx + " " + args[0].S + ")"}, nil
+	case "unbox":
+		// unbox(v, T)
+		if len(e.Args) != 2 {
+			return Val{}, fmt.Errorf("unbox(v, T) needs a value and a type")
+		}
+		v, err := c.eval(env, e.Args[0])
+		if err != nil {
+			return Val{}, err
+		}
+		t := c.eng.resolveType(env.pkg, e.Args[1].String())
+		if t == nil {
+			return Val{}, fmt.Errorf("unbox: unknown type %s", e.Args[1])
+		}
+		_, ub := c.declareBox(t)
+		return scalar(t, "("+ub+" "+v.S+")"), nil
 	case "dyntype":
 		if err := evalArgs(); err != nil {
 			return Val{}, err
